@@ -60,6 +60,7 @@ type Node struct {
 	c           *Cluster
 	dead        int32
 	Incarnation int
+	NoRejoin    bool // next starts use `-join false`
 
 	rpcMu     sync.Mutex
 	rpcFaults map[string]RPCFault // gRPC full method -> fault ("*" = every method)
@@ -359,6 +360,11 @@ func (n *Node) config() *anndb.Config {
 	cfg.Port = n.Port
 	if n.Idx > 0 && !n.c.Opt.Solo {
 		cfg.JoinNodes = []string{n.c.Nodes[0].Addr}
+	}
+	if n.NoRejoin {
+		// `-join false`: restart from the local state only, no join handshake
+		cfg.JoinNodes = nil
+		cfg.DoNotJoinCluster = true
 	}
 	return cfg
 }
